@@ -1,8 +1,8 @@
 package main
 
-// C15-toctou: reproduction of a lost update that is OUTSIDE the atomicity assumption of the C15/C16
-// models ("LookupSecret's unknown-name check and the start of its flight are one step").
-// Not part of any registered check: run `harness C15-toctou` by hand.
+// C15-toctou: stand-alone reproduction of finding F8 (repaired by 104da0c; on the repaired tree it
+// prints "no lost update").  The same history is part of the regular C15 check now: scenario ops
+// lbegin/lend in c15.go, exact witness in corpus/C15/f8_witness.jsonl.  Run `harness C15-toctou` by hand.
 //
 // LookupSecret checks that the name is unknown (store.go:361), and only later registers a flight
 // (store.go:394).  If in between another caller's complete lookup installs the name and an
@@ -16,26 +16,13 @@ package main
 import (
 	"context"
 	"fmt"
-	"sync"
 	"testing"
 	"testing/synctest"
-	"time"
 
 	"github.com/tailscale/setec/client/setec"
 )
 
 func init() { commands["C15-toctou"] = runC15Toctou }
-
-type c15GateCtx struct {
-	context.Context
-	gate chan struct{}
-	once sync.Once
-}
-
-func (g *c15GateCtx) Deadline() (time.Time, bool) {
-	g.once.Do(func() { <-g.gate })
-	return time.Time{}, false
-}
 
 func runC15Toctou(o Opts) {
 	inTest(func(t *testing.T) {
